@@ -364,6 +364,7 @@ def explore_scenario_run(ix, symbols=None, cls="behave.model:Scenario", mutate=N
     st.ghost["current_element"] = scen.oid
     st.ghost["hooks_may_raise_base"] = False
     st.ghost["hooks_may_skip"] = True
+    st.ghost["hooks_may_peek"] = True
     if not thorough:
         st.ghost["no_user_abort"] = True
     st.pinned = st.pinned + (scen.oid,)
@@ -435,6 +436,14 @@ def child_run_stub(world, container_ref_getter, symbols):
                 if c is not None:
                     s.wobj(c).fields["should_skip"] = True
                     s.ghost["skipped_midrun"] = True
+            if "hookfail" in parts:
+                # a hook failed inside the child but the child itself reports success (a retried scenario, a step hook of a
+                # nested execute_steps whose caller swallowed the error): the runner's counter is what is left of it
+                rr = s.wobj(world._runner_of(s))
+                cur_hf = rr.fields.get("hook_failures")
+                from .absexpr import x_add
+                rr.fields["hook_failures"] = (x_add(cur_hf, 1) if not isinstance(cur_hf, Top) else 1) if cur_hf is not None else 1
+                s.ghost["hook_failures_grew"] = True
             if "undefined" in parts:
                 r = s.obj(world._runner_of(s))
                 lst = r.fields.get("undefined_steps") or r.fields.get("_undefined_steps")
@@ -804,7 +813,7 @@ def explore_run_model(ix, thorough=False, mutate=None):
     stubs = dict(w.stubs)
     stubs["@with"] = "transparent"
     holder = {}
-    symbols = ["ok", "failed", "ok+abort", "failed+abort", "failed+undefined", "ok+undefined", "KI"]
+    symbols = ["ok", "failed", "ok+abort", "failed+abort", "failed+undefined", "ok+undefined", "ok+hookfail", "KI"]
     stubs["ChildStub.run"] = child_run_stub(w, lambda s: None, symbols)
 
     def run_hook(it, st, args, kw, node):
@@ -851,6 +860,7 @@ def explore_run_model(ix, thorough=False, mutate=None):
             "aborted": g.get("aborted"), "hook_failed_any": g.get("hook_failed_any", False),
             "hook_failures": ro.fields.get("hook_failures"),
             "undefined_grew": und.count != 0, "cleanups_failed": g.get("cleanups_failed", False),
+            "hook_failures_grew": g.get("hook_failures_grew", False),
             "cleanups_called": g.get("cleanups_called", False),
             "allseq": g.get("allseq", "start"), "h4_err": g.get("h4.err"), "stop_err": g.get("stop.err"), "skip_err": g.get("skip.err"),
             "y4_err": g.get("y4.err"), "f4_err": g.get("f4.err"),
